@@ -387,3 +387,338 @@ Proof.
     replace (len (planE E keep)) with (len dest') in HX by lia. rewrite firstn_len_all in HX. rewrite HX. reflexivity.
 Qed.
 End MergeNum.
+
+(* ---- merge_indexed_journalled_entries(_count) -------------------------------------------- *)
+Fixpoint runs (ia:Z) (C:list (list Z)) : list Z :=
+  match C with [] => [] | c :: t => (ia + len c) :: runs (ia + len c) t end.
+
+Lemma psums_from_runs ia C : psums_from ia (map len C) = ia :: runs ia C.
+Proof. revert ia; induction C as [|c C IH]; intros ia; cbn [map psums_from runs]; [reflexivity|]. rewrite IH. reflexivity. Qed.
+
+Lemma runs_app ia C1 C2 : runs ia (C1 ++ C2) = runs ia C1 ++ runs (ia + len (concat C1)) C2.
+Proof.
+  revert ia; induction C1 as [|c C1 IH]; intros ia; cbn [app runs concat].
+  - unfold len at 1. cbn [length]. rewrite Z.add_0_r. reflexivity.
+  - rewrite IH. rewrite len_app. rewrite Z.add_assoc. reflexivity.
+Qed.
+
+Lemma len_runs ia C : len (runs ia C) = len C.
+Proof. revert ia; induction C as [|c C IH]; intros ia; cbn [runs]; [reflexivity|]. rewrite !len_cons, IH. reflexivity. Qed.
+
+Lemma blit_spec site dest p src a b X :
+  0 <= a -> a <= b -> b <= len src -> 0 <= p -> p + (b - a) <= len dest -> firstn (Z.to_nat p) dest = X ->
+  exists dest', blit site dest p src a b = Ok dest' /\ len dest' = len dest /\
+    firstn (Z.to_nat (p + (b - a))) dest' = X ++ slice src a b.
+Proof.
+  intros Ha Hab Hb Hp Hd HX. unfold blit.
+  replace ((0 <=? a) && (a <=? b) && (b <=? len src) && (0 <=? p) && (p + (b - a) <=? len dest)) with true
+    by (symmetry; rewrite !andb_true_iff, !Z.leb_le; lia).
+  eexists. split; [reflexivity|].
+  assert (Hs : length (slice src a b) = Z.to_nat (b - a)).
+  { unfold slice. rewrite firstn_length, skipn_length. unfold len in *. lia. }
+  assert (Hf : length (firstn (Z.to_nat p) dest) = Z.to_nat p) by (rewrite firstn_length; unfold len in *; lia).
+  split.
+  - unfold len. rewrite !app_length, Hf, Hs, skipn_length. unfold len in *. lia.
+  - rewrite app_assoc. rewrite firstn_app.
+    replace (Z.to_nat (p + (b - a)) - length (firstn (Z.to_nat p) dest ++ slice src a b))%nat with 0%nat
+      by (rewrite app_length, Hf, Hs; lia).
+    cbn [firstn]. rewrite app_nil_r. rewrite firstn_all2 by (rewrite app_length, Hf, Hs; lia). rewrite HX. reflexivity.
+Qed.
+
+Lemma blit_cell site (S:list (list Z)) r dv ia XV :
+  0 <= r < len S -> 0 <= ia -> ia + len (nthd [] S r) <= len dv -> firstn (Z.to_nat ia) dv = XV ->
+  let a := nthZ (fst (encode S)) r in
+  let b := nthZ (fst (encode S)) (r + 1) in
+  b - a = len (nthd [] S r) /\
+  exists dv', (if 0 <? b - a then blit site dv (ia + (b - a) - (b - a)) (snd (encode S)) a b else Ok dv) = Ok dv' /\
+    len dv' = len dv /\ firstn (Z.to_nat (ia + len (nthd [] S r))) dv' = XV ++ nthd [] S r.
+Proof.
+  intros Hr Hia Hd HX a b.
+  assert (Hab : b - a = len (nthd [] S r)) by (unfold a, b; rewrite encode_offs_step by lia; lia).
+  split; [exact Hab|]. pose proof (len_nonneg (nthd [] S r)) as Hc.
+  destruct (0 <? b - a) eqn:E.
+  - assert (Ha0 : 0 <= a) by (unfold a; rewrite encode_offs_nth by lia; apply len_nonneg).
+    assert (Hbl : b <= len (snd (encode S))).
+    { unfold b. rewrite encode_offs_nth by lia. unfold encode. cbn [snd].
+      rewrite <- (firstn_skipn (Z.to_nat (r + 1)) S) at 2. rewrite concat_app, len_app.
+      pose proof (len_nonneg (concat (skipn (Z.to_nat (r + 1)) S))). lia. }
+    replace (ia + (b - a) - (b - a)) with ia by lia.
+    destruct (blit_spec site dv ia (snd (encode S)) a b XV Ha0 ltac:(lia) Hbl Hia ltac:(lia) HX) as (dv' & Hr' & Hl & HX').
+    exists dv'. split; [exact Hr'|]. split; [exact Hl|]. rewrite <- Hab. rewrite HX'.
+    f_equal. fold (cell (fst (encode S)) (snd (encode S)) r). unfold a, b. apply cell_encode. lia.
+  - apply Z.ltb_ge in E. assert (Hz : len (nthd [] S r) = 0) by lia.
+    exists dv. split; [reflexivity|]. split; [reflexivity|]. rewrite Hz, Z.add_0_r.
+    destruct (nthd [] S r) as [|y l]; [rewrite app_nil_r; exact HX|]. rewrite len_cons in Hz. pose proof (len_nonneg l). lia.
+Qed.
+
+Section MergeStr.
+Variables (oks:list Z) (os ns:list (list Z)).
+Hypothesis Hlo : len os = len oks.
+
+Definition cellstr (s:src) : list Z := match s with FromOld p => nthd [] os p | FromNew q => nthd [] ns q end.
+Definition oldcells (a b:Z) : list (list Z) := map (nthd [] os) (zrange a b).
+
+Lemma count_old_spec fuel lim : forall cur acc,
+  0 <= cur -> lim < len os -> Z.of_nat fuel > Z.max 0 (lim + 1 - cur) ->
+  count_old fuel lim (fst (encode os)) (cur, acc) =
+  Ok (Z.max cur (lim + 1), acc + len (concat (oldcells cur (lim + 1)))).
+Proof.
+  induction fuel as [|f IH]; intros cur acc Hc Hlim Hf; [lia|].
+  cbn [count_old]. destruct (cur <=? lim) eqn:E.
+  - apply Z.leb_le in E. rewrite (getZ_ok 51) by (rewrite len_encode_offs; lia). cbn [bind].
+    rewrite (getZ_ok 52) by (rewrite len_encode_offs; lia). cbn [bind].
+    rewrite IH by lia. rewrite encode_offs_step by lia.
+    unfold oldcells. rewrite (zrange_cons cur) by lia. cbn [map concat]. rewrite len_app.
+    f_equal. f_equal; lia.
+  - apply Z.leb_gt in E. unfold oldcells. rewrite zrange_nil by lia. cbn [map concat].
+    f_equal. f_equal; [lia|]. unfold len; cbn [length]; lia.
+Qed.
+
+Definition cbodyL (fuel:nat) (st:Z * Z) (xk:entry * bool) : res (Z * Z) :=
+  do '(cur_old, acc_val) <- count_old fuel (e_old (fst xk)) (fst (encode os)) st;
+  if snd xk then
+    do b <- get 55 (fst (encode ns)) (e_new (fst xk) + 1);
+    do a <- get 56 (fst (encode ns)) (e_new (fst xk));
+    Ok (cur_old, acc_val + (b - a))
+  else Ok (cur_old, acc_val).
+
+Lemma merge_indexed_count_fold fuel E keep : length keep = length E ->
+  merge_indexed_count fuel (map e_old E) (map e_new E) keep (fst (encode os)) (fst (encode ns)) =
+  (do '(_, acc) <- fold_res (cbodyL fuel) (0, 0) (combine E keep); Ok acc).
+Proof.
+  intros Hl. unfold merge_indexed_count. rewrite map_length.
+  replace (length E) with (length (combine E keep)) at 1 by (rewrite combine_length; lia).
+  rewrite (for_range_fold (dE, false) (combine E keep) 0 _ (cbodyL fuel)); [reflexivity|].
+  intros t st Ht. rewrite combine_length in Ht. rewrite Z.add_0_l.
+  rewrite (combine_nth E keep t dE false) by lia. unfold cbodyL. cbn [fst snd].
+  rewrite (get_map e_old 50 E t dE) by lia. cbn [bind].
+  destruct (count_old fuel (e_old (nth t E dE)) (fst (encode os)) st) as [[c a]| | |]; cbn [bind]; try reflexivity.
+  rewrite (get_nth 53 keep t false) by lia. cbn [bind].
+  destruct (nth t keep false); [|reflexivity].
+  rewrite (get_map e_new 54 E t dE) by lia. cbn [bind]. reflexivity.
+Qed.
+
+Lemma count_fold_spec fuel : forall E keep cur acc,
+  chain oks cur E -> Forall (ebound (len oks) (len ns)) E -> length keep = length E -> keep_valid E keep ->
+  0 <= cur -> Z.of_nat fuel > len oks ->
+  exists cur', fold_res (cbodyL fuel) (cur, acc) (combine E keep) =
+    Ok (cur', acc + len (concat (map cellstr (planE E keep)))).
+Proof.
+  induction E as [|x E IH]; intros keep cur acc Hc Hb Hl Hkv Hcur Hf.
+  - destruct keep; [|discriminate]. cbn [combine fold_res]. unfold planE. cbn [combine flat_map map concat].
+    exists cur. f_equal. f_equal. unfold len; cbn [length]; lia.
+  - destruct keep as [|kp keep]; [discriminate|]. cbn [chain] in Hc. destruct Hc as [Ha Hc]. subst cur.
+    pose proof (Forall_inv Hb) as (Hx0 & Hx1 & Hx2). pose proof (Forall_inv_tail Hb) as Hb'.
+    rewrite planE_cons. cbn [combine fold_res]. unfold cbodyL at 1. cbn [fst snd].
+    pose proof (len_nonneg os) as Hnos.
+    rewrite count_old_spec by (destruct Hx1; lia).
+    cbn [bind].
+    assert (Hcur2 : Z.max (e_a x) (e_old x + 1) = (if e_old x =? -1 then e_a x else e_old x + 1)).
+    { destruct (e_old x =? -1) eqn:Eo; [apply Z.eqb_eq in Eo; lia|apply Z.eqb_neq in Eo; destruct Hx1; lia]. }
+    rewrite Hcur2.
+    assert (Hcur2' : 0 <= (if e_old x =? -1 then e_a x else e_old x + 1)) by (destruct (e_old x =? -1); destruct Hx1; lia).
+    rewrite map_app, concat_app, len_app. unfold eblock at 1. cbn [fst snd]. rewrite map_app, concat_app, len_app, map_map.
+    change (map (fun p => cellstr (FromOld p)) (zrange (e_a x) (e_old x + 1))) with (oldcells (e_a x) (e_old x + 1)).
+    destruct kp.
+    + assert (Hq : 0 <= e_new x < len ns).
+      { destruct Hx2 as [Hx2|Hx2]; [|exact Hx2]. exfalso. apply (Hkv (x, true)); [left; reflexivity|reflexivity|exact Hx2]. }
+      rewrite (getZ_ok 55) by (rewrite len_encode_offs; lia). cbn [bind].
+      rewrite (getZ_ok 56) by (rewrite len_encode_offs; lia). cbn [bind].
+      rewrite encode_offs_step by lia.
+      destruct (IH keep _ (acc + len (concat (oldcells (e_a x) (e_old x + 1))) +
+                           (nthZ (fst (encode ns)) (e_new x) + len (nthd [] ns (e_new x)) - nthZ (fst (encode ns)) (e_new x))) Hc Hb')
+        as (cur' & Hr); try lia.
+      * cbn [length] in Hl. lia.
+      * apply (keep_valid_tail _ _ _ _ Hkv).
+      * exists cur'. rewrite Hr. f_equal. f_equal. cbn [map concat cellstr]. rewrite app_nil_r. lia.
+    + cbn [bind]. destruct (IH keep _ (acc + len (concat (oldcells (e_a x) (e_old x + 1)))) Hc Hb') as (cur' & Hr); try lia.
+      * cbn [length] in Hl. lia.
+      * apply (keep_valid_tail _ _ _ _ Hkv).
+      * exists cur'. rewrite Hr. f_equal. f_equal. cbn [map concat]. change (len (@nil Z)) with 0. lia.
+Qed.
+
+Theorem merge_indexed_count_spec fuel E keep :
+  chain oks 0 E -> Forall (ebound (len oks) (len ns)) E -> length keep = length E -> keep_valid E keep ->
+  Z.of_nat fuel > len oks ->
+  merge_indexed_count fuel (map e_old E) (map e_new E) keep (fst (encode os)) (fst (encode ns))
+  = Ok (len (concat (map cellstr (planE E keep)))).
+Proof.
+  intros Hc Hb Hl Hkv Hf. rewrite merge_indexed_count_fold by exact Hl.
+  destruct (count_fold_spec fuel E keep 0 0 Hc Hb Hl Hkv) as (cur' & Hr); try lia.
+  rewrite Hr. reflexivity.
+Qed.
+End MergeStr.
+
+Section MergeStr2.
+Variables (oks:list Z) (os ns:list (list Z)).
+Hypothesis Hlo : len os = len oks.
+
+Notation ocells := (oldcells os).
+Notation cstr := (cellstr os ns).
+
+Lemma oldcells_cons cur lim : cur <= lim -> ocells cur (lim + 1) = nthd [] os cur :: ocells (cur + 1) (lim + 1).
+Proof. intros H. unfold oldcells. rewrite (zrange_cons cur) by lia. reflexivity. Qed.
+
+Lemma copy_old_indexed_spec fuel lim : forall cur cd ia di dv XI XV,
+  0 <= cur -> lim < len os -> 0 <= cd -> 0 <= ia ->
+  cd + len (ocells cur (lim + 1)) <= len di -> ia + len (concat (ocells cur (lim + 1))) <= len dv ->
+  firstn (Z.to_nat cd) di = XI -> firstn (Z.to_nat ia) dv = XV -> Z.of_nat fuel > Z.max 0 (lim + 1 - cur) ->
+  exists di' dv',
+    copy_old_indexed fuel lim (fst (encode os)) (snd (encode os)) (cur, cd, ia, di, dv) =
+      Ok (Z.max cur (lim + 1), cd + len (ocells cur (lim + 1)), ia + len (concat (ocells cur (lim + 1))), di', dv') /\
+    len di' = len di /\ len dv' = len dv /\
+    firstn (Z.to_nat (cd + len (ocells cur (lim + 1)))) di' = XI ++ runs ia (ocells cur (lim + 1)) /\
+    firstn (Z.to_nat (ia + len (concat (ocells cur (lim + 1))))) dv' = XV ++ concat (ocells cur (lim + 1)).
+Proof.
+  induction fuel as [|f IH]; intros cur cd ia di dv XI XV Hc Hlim Hcd Hia Hdi Hdv HXI HXV Hf; [lia|].
+  cbn [copy_old_indexed]. destruct (cur <=? lim) eqn:E.
+  - apply Z.leb_le in E. rewrite oldcells_cons in * by lia. cbn [concat runs] in *.
+    rewrite len_cons in *. rewrite len_app in *.
+    pose proof (len_nonneg (ocells (cur + 1) (lim + 1))) as Hn1.
+    pose proof (len_nonneg (concat (ocells (cur + 1) (lim + 1)))) as Hn2.
+    pose proof (len_nonneg (nthd [] os cur)) as Hn3.
+    rewrite (getZ_ok 61) by (rewrite len_encode_offs; lia). cbn [bind].
+    rewrite (getZ_ok 62) by (rewrite len_encode_offs; lia). cbn [bind]. cbv zeta.
+    rewrite (set_ok 63 di cd) by lia. cbn [bind].
+    destruct (blit_cell 64 os cur dv ia XV ltac:(lia) Hia ltac:(lia) HXV) as (Hab & dv1 & Hb1 & Hl1 & HX1).
+    rewrite Hb1. cbn [bind]. rewrite Hab.
+    destruct (IH (cur + 1) (cd + 1) (ia + len (nthd [] os cur)) (upd di cd (ia + len (nthd [] os cur))) dv1
+                 (XI ++ [ia + len (nthd [] os cur)]) (XV ++ nthd [] os cur))
+      as (di' & dv' & Hr & Hl2 & Hl3 & HX2 & HX3); try lia.
+    + rewrite len_upd. lia.
+    + rewrite firstn_upd_snoc by lia. rewrite HXI. reflexivity.
+    + exact HX1.
+    + exists di', dv'. rewrite len_upd in Hl2.
+      replace (Z.max cur (lim + 1)) with (Z.max (cur + 1) (lim + 1)) by lia.
+      replace (cd + (len (ocells (cur + 1) (lim + 1)) + 1)) with (cd + 1 + len (ocells (cur + 1) (lim + 1))) by lia.
+      replace (ia + (len (nthd [] os cur) + len (concat (ocells (cur + 1) (lim + 1)))))
+        with (ia + len (nthd [] os cur) + len (concat (ocells (cur + 1) (lim + 1)))) by lia.
+      split; [exact Hr|]. split; [lia|]. split; [lia|]. split.
+      * rewrite HX2. rewrite <- app_assoc. reflexivity.
+      * rewrite HX3. rewrite <- app_assoc. reflexivity.
+  - apply Z.leb_gt in E. exists di, dv. unfold oldcells. rewrite zrange_nil by lia. cbn [map concat runs].
+    change (len (@nil (list Z))) with 0. change (len (@nil Z)) with 0. rewrite !Z.add_0_r, !app_nil_r.
+    replace (Z.max cur (lim + 1)) with cur by lia. auto.
+Qed.
+
+Definition ibodyL (fuel:nat) (st:mi_state) (xk:entry * bool) : res mi_state :=
+  do '(cur_old, cur_dest, ind_acc, di1, dv1) <-
+     copy_old_indexed fuel (e_old (fst xk)) (fst (encode os)) (snd (encode os)) st;
+  if snd xk then
+    do b <- get 67 (fst (encode ns)) (e_new (fst xk) + 1);
+    do a <- get 68 (fst (encode ns)) (e_new (fst xk));
+    let ind_delta := b - a in
+    let ind_acc' := ind_acc + ind_delta in
+    do di2 <- set 69 di1 cur_dest ind_acc';
+    do dv2 <- (if 0 <? ind_delta
+               then blit 70 dv1 (ind_acc' - ind_delta) (snd (encode ns)) a b
+               else Ok dv1);
+    Ok (cur_old, cur_dest + 1, ind_acc', di2, dv2)
+  else Ok (cur_old, cur_dest, ind_acc, di1, dv1).
+
+Lemma merge_indexed_fold fuel E keep di dv : length keep = length E ->
+  merge_indexed fuel (map e_old E) (map e_new E) keep (fst (encode os)) (snd (encode os))
+                (fst (encode ns)) (snd (encode ns)) di dv =
+  (do di0 <- set 59 di 0 0;
+   do '(_, _, _, di', dv') <- fold_res (ibodyL fuel) (0, 1, 0, di0, dv) (combine E keep); Ok (di', dv')).
+Proof.
+  intros Hl. unfold merge_indexed. destruct (set 59 di 0 0) as [di0| | |]; cbn [bind]; try reflexivity.
+  rewrite map_length.
+  replace (length E) with (length (combine E keep)) at 1 by (rewrite combine_length; lia).
+  rewrite (for_range_fold (dE, false) (combine E keep) 0 _ (ibodyL fuel)); [reflexivity|].
+  intros t st Ht. rewrite combine_length in Ht. rewrite Z.add_0_l.
+  rewrite (combine_nth E keep t dE false) by lia. unfold ibodyL. cbn [fst snd].
+  rewrite (get_map e_old 60 E t dE) by lia. cbn [bind].
+  destruct (copy_old_indexed fuel (e_old (nth t E dE)) (fst (encode os)) (snd (encode os)) st)
+    as [[[[[c d] ia] i1] v1]| | |]; cbn [bind]; try reflexivity.
+  rewrite (get_nth 65 keep t false) by lia. cbn [bind].
+  destruct (nth t keep false); [|reflexivity].
+  rewrite (get_map e_new 66 E t dE) by lia. cbn [bind]. reflexivity.
+Qed.
+
+Lemma merge_fold_str fuel : forall E keep cur cd ia di dv XI XV,
+  chain oks cur E -> Forall (ebound (len oks) (len ns)) E -> length keep = length E -> keep_valid E keep ->
+  0 <= cur -> 0 <= cd -> 0 <= ia ->
+  cd + len (planE E keep) <= len di -> ia + len (concat (map cstr (planE E keep))) <= len dv ->
+  firstn (Z.to_nat cd) di = XI -> firstn (Z.to_nat ia) dv = XV -> Z.of_nat fuel > len oks ->
+  exists cur' di' dv',
+    fold_res (ibodyL fuel) (cur, cd, ia, di, dv) (combine E keep) =
+      Ok (cur', cd + len (planE E keep), ia + len (concat (map cstr (planE E keep))), di', dv') /\
+    len di' = len di /\ len dv' = len dv /\
+    firstn (Z.to_nat (cd + len (planE E keep))) di' = XI ++ runs ia (map cstr (planE E keep)) /\
+    firstn (Z.to_nat (ia + len (concat (map cstr (planE E keep))))) dv' = XV ++ concat (map cstr (planE E keep)).
+Proof.
+  induction E as [|x E IH]; intros keep cur cd ia di dv XI XV Hc Hb Hl Hkv Hcur Hcd Hia Hdi Hdv HXI HXV Hf.
+  - destruct keep; [|discriminate]. unfold planE. cbn [combine flat_map fold_res map concat runs].
+    change (len (@nil src)) with 0. change (len (@nil Z)) with 0. rewrite !Z.add_0_r, !app_nil_r.
+    exists cur, di, dv. auto.
+  - destruct keep as [|kp keep]; [discriminate|]. cbn [chain] in Hc. destruct Hc as [Ha Hc]. subst cur.
+    pose proof (Forall_inv Hb) as (Hx0 & Hx1 & Hx2). pose proof (Forall_inv_tail Hb) as Hb'.
+    pose proof (len_nonneg os) as Hnos.
+    rewrite planE_cons in *. cbn [combine fold_res].
+    assert (Hmap : map cstr (eblock (x, kp)) = ocells (e_a x) (e_old x + 1) ++ (if kp then [nthd [] ns (e_new x)] else [])).
+    { unfold eblock. cbn [fst snd]. rewrite map_app, map_map. destruct kp; reflexivity. }
+    rewrite map_app, Hmap in *. rewrite !concat_app in *. rewrite !len_app in *.
+    rewrite runs_app. rewrite runs_app.
+    set (C := ocells (e_a x) (e_old x + 1)) in *.
+    set (P := planE E keep) in *.
+    assert (HlenC : len C = Z.max 0 (e_old x + 1 - e_a x)) by (unfold C, oldcells; rewrite len_map, zrange_length; reflexivity).
+    pose proof (len_nonneg (concat C)) as HnC. pose proof (len_nonneg P) as HnP.
+    pose proof (len_nonneg (concat (map cstr P))) as HnCP.
+    assert (Hblk : len (eblock (x, kp)) = len C + (if kp then 1 else 0)).
+    { rewrite eblock_len by (try lia; destruct Hx1; lia). lia. }
+    unfold ibodyL at 1. cbn [fst snd].
+    assert (Hcur2 : Z.max (e_a x) (e_old x + 1) = (if e_old x =? -1 then e_a x else e_old x + 1)).
+    { destruct (e_old x =? -1) eqn:Eo; [apply Z.eqb_eq in Eo; lia|apply Z.eqb_neq in Eo; destruct Hx1; lia]. }
+    assert (Hcur2' : 0 <= (if e_old x =? -1 then e_a x else e_old x + 1)) by (destruct (e_old x =? -1); destruct Hx1; lia).
+    destruct kp; cbv beta iota in Hblk, Hdi, Hdv |- *.
+    + assert (Hq : 0 <= e_new x < len ns).
+      { destruct Hx2 as [Hx2|Hx2]; [|exact Hx2]. exfalso. apply (Hkv (x, true)); [left; reflexivity|reflexivity|exact Hx2]. }
+      cbn [concat] in *. rewrite app_nil_r in *. cbn [runs].
+      pose proof (len_nonneg (nthd [] ns (e_new x))) as Hnc.
+      destruct (copy_old_indexed_spec fuel (e_old x) (e_a x) cd ia di dv XI XV)
+        as (di1 & dv1 & Hr1 & Hl1 & Hl1' & HX1 & HX1'); try assumption; try (fold C; destruct Hx1; lia).
+      fold C in Hr1, HX1, HX1'. rewrite Hr1. cbn [bind]. rewrite Hcur2.
+      rewrite (getZ_ok 67) by (rewrite len_encode_offs; lia). cbn [bind].
+      rewrite (getZ_ok 68) by (rewrite len_encode_offs; lia). cbn [bind]. cbv zeta.
+      rewrite (set_ok 69 di1) by lia. cbn [bind].
+      destruct (blit_cell 70 ns (e_new x) dv1 (ia + len (concat C)) (XV ++ concat C) Hq ltac:(lia) ltac:(lia) HX1')
+        as (Hab & dv2 & Hb2 & Hl2 & HX2).
+      rewrite Hb2. cbn [bind]. rewrite Hab.
+      destruct (IH keep _ (cd + len C + 1) (ia + len (concat C) + len (nthd [] ns (e_new x)))
+                  (upd di1 (cd + len C) (ia + len (concat C) + len (nthd [] ns (e_new x)))) dv2
+                  (XI ++ runs ia C ++ [ia + len (concat C) + len (nthd [] ns (e_new x))])
+                  (XV ++ concat C ++ nthd [] ns (e_new x)) Hc Hb')
+        as (cur' & di' & dv' & Hr & Hl3 & Hl3' & HX3 & HX3'); try lia.
+      * cbn [length] in Hl. lia.
+      * apply (keep_valid_tail _ _ _ _ Hkv).
+      * rewrite len_upd. fold P. lia.
+      * fold P. lia.
+      * rewrite firstn_upd_snoc by lia. rewrite HX1. rewrite <- app_assoc. reflexivity.
+      * rewrite HX2. rewrite <- app_assoc. reflexivity.
+      * fold P in Hr, HX3, HX3'. exists cur', di', dv'. rewrite len_upd in Hl3.
+        replace (cd + (len (eblock (x, true)) + len P)) with (cd + len C + 1 + len P) by lia.
+        replace (ia + (len (concat C) + len (nthd [] ns (e_new x)) + len (concat (map cstr P))))
+          with (ia + len (concat C) + len (nthd [] ns (e_new x)) + len (concat (map cstr P))) by lia.
+        split; [exact Hr|]. split; [lia|]. split; [lia|]. split.
+        -- rewrite HX3. rewrite <- !app_assoc. cbn [app]. rewrite concat_app, len_app. cbn [concat]. rewrite app_nil_r.
+           rewrite Z.add_assoc. reflexivity.
+        -- rewrite HX3'. rewrite <- !app_assoc. reflexivity.
+    + cbn [concat] in *. change (len (@nil Z)) with 0 in *. rewrite ?Z.add_0_r in *. rewrite app_nil_r in *. cbn [runs app].
+      destruct (copy_old_indexed_spec fuel (e_old x) (e_a x) cd ia di dv XI XV)
+        as (di1 & dv1 & Hr1 & Hl1 & Hl1' & HX1 & HX1'); try assumption; try (fold C; destruct Hx1; lia).
+      fold C in Hr1, HX1, HX1'. rewrite Hr1. cbn [bind]. rewrite Hcur2.
+      destruct (IH keep _ (cd + len C) (ia + len (concat C)) di1 dv1 (XI ++ runs ia C) (XV ++ concat C) Hc Hb')
+        as (cur' & di' & dv' & Hr & Hl3 & Hl3' & HX3 & HX3'); try lia; try assumption.
+      * cbn [length] in Hl. lia.
+      * apply (keep_valid_tail _ _ _ _ Hkv).
+      * fold P. lia.
+      * fold P. lia.
+      * fold P in Hr, HX3, HX3'. exists cur', di', dv'.
+        replace (cd + (len (eblock (x, false)) + len P)) with (cd + len C + len P) by lia.
+        replace (ia + (len (concat C) + len (concat (map cstr P)))) with (ia + len (concat C) + len (concat (map cstr P))) by lia.
+        split; [exact Hr|]. split; [lia|]. split; [lia|]. split.
+        -- rewrite HX3. rewrite <- !app_assoc. rewrite ?app_nil_r. reflexivity.
+        -- rewrite HX3'. rewrite <- !app_assoc. rewrite ?app_nil_r. reflexivity.
+Qed.
+End MergeStr2.
